@@ -559,7 +559,7 @@ fn signature(_: &Case, msg: &str) -> String {
 pub fn run(ctx: &Ctx, rep: &mut Report) {
     rep.rule = "model-based: generated shape (width 2..=200 weighted to 63..66, 127..130, 191..194; height = width + 0..=70; trailing dense hint 1..=min(width-1,70) weighted to word boundaries; initial fill through set with generated density) and 1..90 raw operation descriptors interpreted by the model into admissible operations of a three-phase protocol mirroring every precondition asserted in sparse_matrix.rs: construction (set, swap rows/columns, additions, queries), indexed (enable; swap rows; swap columns within the sparse part with a valid start-row hint; freeze the last sparse column; pivot elimination add(dest,src,0) when src has a single one in the sparse part and dest has it set; add(dest,src,first dense column); set in the dense part; count/iterate rows over the sparse part; ones of still-valid columns; packed sub-row and non-zero columns at the first dense column; get), un-indexed (disable; resize keeping width or dropping at least the dense tail, height >= width; unrestricted additions; set; queries). Oracle: a Vec<Vec<Tri>> with an undefined state (cells of dest left of start_col where src is non-zero after a partial addition); every query of BOTH implementations is compared with the model on defined cells, packed rows are unpacked by the harness, and all defined cells are scanned at the end. Non-trivial = sequence with a freeze that crosses a 64-column boundary of the dense tail, a resize, and a column swap after a row swap; distinct by (shape, op sequence).".into();
     rep.assumptions.push("trailing dense hint >= 1 as in every caller (the solver passes P >= 10)".into());
-    let n = ctx.tier.pick(20_000u64, 500_000);
+    let n = ctx.tier.pick(200_000u64, 2_000_000);
     rep.absorb("model", run_sharded("C16", "model", ctx.seed, n, 32, strategy, check, to_json, signature));
 }
 
